@@ -20,8 +20,10 @@ import shutil
 
 import lib
 
+SPEC_DIR = os.environ.get("VERIF_C02_SPEC", "resolve")   # development copies: VERIF_C02_SPEC=<abs dir> VERIF_C02_CMD=<cmd>
+CMD = os.environ.get("VERIF_C02_CMD", "render")
 ENTRIES = ["resolvable", "resolver", "arena"]
-KINDS = ["String", "Int", "Float", "Boolean", "Enum", "Scalar"]
+KINDS = ["String", "Int", "Float", "Boolean", "Enum", "Scalar", "Other"]
 MODEL_INVS = ["SpecSelfConsistent", "WellTypedExact", "RejectsNaive", "RejectsSilent", "RejectsTooFar"]
 CONJUNCTS = ["WellFormed", "TypeSafe", "Keys", "Projection", "NullProp", "Reported"]
 MAX_REPLAYS_PER_KEY = 3
@@ -168,7 +170,8 @@ class Judge:
         op = ctx.path("obs-%s.ndjson" % tag)
         ids = sorted(cases)
         lib.write_ndjson(cp, [{"id": i, "T": cases[i]["T"], "j": cases[i]["j"]} for i in ids])
-        ctx.run_bin(self.binary, ["-in", cp, "-out", op, "-entries", ",".join(ENTRIES)], timeout=1800)
+        extmod = 4 if ctx.quick() else 1   # entry "ext" (everything that writes `extensions` switched on) for every N-th case
+        ctx.run_bin(self.binary, ["-in", cp, "-out", op, "-entries", ",".join(ENTRIES), "-extmod", str(extmod)], timeout=1800)
         lines = []  # (case id, obs) to be judged by TLC
         failing = set()
         nobs = 0
@@ -185,7 +188,7 @@ class Judge:
                 group.append(o)
             if group:
                 self._group(cases[cur], group, lines, failing)
-        if nobs != len(ids) * len(ENTRIES):
+        if nobs != len(ids) * len(ENTRIES) + (len(ids) + extmod - 1) // extmod:
             raise lib.Inconclusive("harness returned %d observations for %d cases" % (nobs, len(ids)))
         self.evaluations += nobs
         # ---- TLC judges the observations, batch by batch
@@ -201,7 +204,7 @@ class Judge:
             paths.append(tp)
 
         def one(tp):
-            return ctx.tlc("resolve", "Trace_Render", "Trace_Render_report.cfg", workers=1, env={"TRACE": tp}, timeout=1800,
+            return ctx.tlc(SPEC_DIR, "Trace_Render", "Trace_Render_report.cfg", workers=1, env={"TRACE": tp}, timeout=1800,
                            deadlock=False, count=False, heap="6g", tag="trace-validation")
 
         with concurrent.futures.ThreadPoolExecutor(max_workers=3) as ex:
@@ -247,7 +250,14 @@ class Judge:
                 continue
             if o["dup"]:
                 failing.add(case["id"])
-                self.report("duplicate-key", "an object in the response has a duplicate key", case, o)
+                self.report("duplicate-key" + (":ext" if o["entry"] == "ext" else ""), "an object in the response has a duplicate key", case, o)
+            if o["entry"] == "ext":
+                top = dict(zip(o["out"]["k"], o["out"]["v"])) if o["out"]["t"] == "o" else {}
+                ext = top.get("extensions", {"t": "x"})
+                keys = ext.get("k", []) if ext["t"] == "o" else None
+                if keys is None or sorted(keys) != ["authorization", "k", "rateLimit"]:
+                    failing.add(case["id"])
+                    self.report("extensions-content", "extensions must hold authorization, rateLimit and the allowed subgraph key k exactly once, got %s" % keys, case, o)
             if o["raw"] in raws:
                 self.identical_entries += 1
                 continue  # byte-identical to an output of another entry point that TLC judges
@@ -275,7 +285,7 @@ def binding_selftest(ctx, judge_cases, binary):
     def strict(rows, name):
         tp = ctx.path("bind-%s.ndjson" % name)
         lib.write_ndjson(tp, rows)
-        return ctx.tlc("resolve", "Trace_Render", "Trace_Render.cfg", workers=1, env={"TRACE": tp}, timeout=300, deadlock=False,
+        return ctx.tlc(SPEC_DIR, "Trace_Render", "Trace_Render.cfg", workers=1, env={"TRACE": tp}, timeout=300, deadlock=False,
                        count=False, heap="2g", tag="binding-" + name)
 
     rows = [{"id": c["id"], "T": c["T"], "j": c["j"], "out": o["out"]} for c, o in zip((good, bad), obs)]
@@ -317,7 +327,7 @@ def replay_file(ctx, binary):
 def run(ctx):
     load_own_findings(ctx)
     rng = random.Random(ctx.seed)
-    binary = ctx.build("render")
+    binary = ctx.build(CMD)
     # private copy: other agents' mutant runs remove /verif/.build-* directories at any moment
     private = ctx.path("render-bin")
     shutil.copy2(binary, private)
@@ -326,7 +336,7 @@ def run(ctx):
         return replay_file(ctx, binary)
     quick = ctx.quick()
     # ---- 1. model check + 2. generate ----------------------------------------------------------
-    r = ctx.tlc("resolve", "Gen_Render", "MC_Render_neg.cfg", timeout=300, deadlock=False, workers=2, count=False, tag="mc-negative-control")
+    r = ctx.tlc(SPEC_DIR, "Gen_Render", "MC_Render_neg.cfg", timeout=300, deadlock=False, workers=2, count=False, tag="mc-negative-control")
     if r.violated != "NaiveAccepted":
         raise lib.Inconclusive("sanity: the relation must reject the unchecked renderer in the model, got %r" % (r.violated or r.error))
     judge = Judge(ctx, binary)
@@ -357,10 +367,10 @@ def run(ctx):
 
     # ---- deeper trees by simulation (several TLC processes, seeds derived from VERIF_SEED); started now, they
     # run in the background while the exhaustive part is generated, replayed and judged
-    chunks, walks = (4, 60) if quick else (8, 500)
+    chunks, walks = (4, 25) if quick else (8, 400)
 
     def sim(k):
-        return ctx.tlc("resolve", "Gen_Render", "Gen_Render_sim.cfg", timeout=2400, deadlock=False, workers=1, simulate=walks, depth=6,
+        return ctx.tlc(SPEC_DIR, "Gen_Render", "Gen_Render_sim.cfg", timeout=2400, deadlock=False, workers=1, simulate=walks, depth=5,
                        seed=ctx.seed * 1000 + k, heap="3g", tag="gen+mc simulate depth 3-5 chunk %d" % k)
 
     sim_pool = concurrent.futures.ThreadPoolExecutor(max_workers=4)
@@ -371,7 +381,7 @@ def run(ctx):
     else:
         parts = [("Gen_Render_t_%s.cfg" % k, "gen+mc depth<=2 seed kind %s" % k) for k in KINDS]
     for cfg, tag in parts:
-        g = ctx.tlc_must_pass("resolve", "Gen_Render", cfg, timeout=2400, deadlock=False, workers=8, tag=tag)
+        g = ctx.tlc_must_pass(SPEC_DIR, "Gen_Render", cfg, timeout=2400, deadlock=False, workers=8, tag=tag)
         cases = {}
         dedupe(g.printed, cases)
         g.printed = None
